@@ -1428,6 +1428,24 @@ func (e *fnEnc) ret(st *state, v *ssa.Return) {
 			o.Quantified = true
 		}
 	}
+	// at-return clauses labelled [...:lemma] come first and, once obliged, are available to the
+	// clauses after them at this return (assert, then assume: they only structure the proof)
+	for i, en := range e.fc.AtReturn {
+		if !strings.HasSuffix(en.Label, ":lemma") {
+			continue
+		}
+		lenv := e.contractEnv(st, e.entry, nil)
+		lenv.setResults(e.fn, res)
+		lenv.lenientLocals = true
+		t := lenv.evalBool(en.Expr)
+		o := e.oblige(st, "at-return", fmt.Sprintf("[%s]", labelOr(en.Label, i)), v.Pos(), t)
+		o.Quantified = strings.Contains(t, "forall") || strings.Contains(t, "exists")
+		o.Src = en.Src
+		if o.Quantified {
+			e.hasQuant = true
+		}
+		e.assume(st, t)
+	}
 	for i, en := range e.fc.Ensures {
 		if en.Ghost {
 			e.V.Assumed[fmt.Sprintf("ghost naming clause of %s: [%s] %s", funcKey(e.fn), en.Label, en.Src)] = true
@@ -1445,6 +1463,9 @@ func (e *fnEnc) ret(st *state, v *ssa.Return) {
 		lenv.setResults(e.fn, res)
 		lenv.lenientLocals = true
 		for i, en := range e.fc.AtReturn {
+			if strings.HasSuffix(en.Label, ":lemma") {
+				continue
+			}
 			t := lenv.evalBool(en.Expr)
 			o := e.oblige(st, "at-return", fmt.Sprintf("[%s]", labelOr(en.Label, i)), v.Pos(), t)
 			o.Quantified = strings.Contains(t, "forall") || strings.Contains(t, "exists")
